@@ -237,6 +237,11 @@ func (cc *cliConn) runStalled(op string, f []string) string {
 			q.said = cliGoAwayDetail(err)
 			wb := cc.writerBlockedOn()
 			back, ms, ff := cc.waitFor2(func() { http2.VerifCtxTakeBack(q.ctx) })
+			if !back {
+				// what the writer is blocked on now that the caller has been found stuck (on a loaded machine the look
+				// before the wait can come a moment before the writer reaches the write it blocks in)
+				wb = cc.writerBlockedOn()
+			}
 			return mon("read %s %s retry=%d sid=%d hung=%d ms=%d ff=%d wblocked=%s%s", q.tag, cliErrName(err), b01(http2.VerifRetryable(err)),
 				http2.VerifCtxStreamID(q.ctx), b01(!back), ms, ff, wb, cliErrDetail(err))
 		default:
